@@ -1,5 +1,6 @@
 import IvpModel.Driver.MatrixDrv
 import IvpModel.Driver.SolOutDrv
+import IvpModel.Driver.SolveDrv
 
 def main (args : List String) : IO UInt32 := do
   let stdin ← IO.getStdin
@@ -7,6 +8,9 @@ def main (args : List String) : IO UInt32 := do
   match args with
   | ["matrix"] =>
       for o in Drv.Matrix.run lines do IO.println o
+      return 0
+  | ["solve"] =>
+      for o in Drv.Solve.run lines do IO.println o
       return 0
   | ["solout"] =>
       for o in Drv.SolOut.run lines do IO.println o
